@@ -88,6 +88,13 @@ def rule_config(h, kind, order):
     from skfem.quadrature import get_quadrature
     refdom = _refdoms()[kind]
     try:
+        # history [request, caller scribbles over what it got, request again]: a rule must not be aliased to earlier results
+        X0, W0 = get_quadrature(refdom, order)
+        try:
+            X0[...] = 7.0
+            W0[...] = -3.0
+        except ValueError:
+            pass   # read-only results are fine too
         X, W = get_quadrature(refdom, order)
     except NotImplementedError:
         # the library declines this order: that is the documented behaviour for orders outside the tables
